@@ -53,7 +53,7 @@ def expected_graph(spec, entry):
         hs, own_loads, helper_loads = [], [], []
         for it in f.get("body", []):
             if it["k"] == "load":
-                own_loads.append(it["path"])
+                own_loads.append(S.norm_path(it["path"]))
                 continue
             nd = item_node(it)
             if nd:
@@ -236,6 +236,13 @@ def extra_programs():
                           {"name": "H", "module": "main", "params": [["x", None]], "body": [{"k": "keep", "path": "/w/s", "fn": "FS", "args": []}]},
                           {"name": "root", "module": "main", "params": [], "body": [{"k": "keep", "path": "/w/a", "fn": "F", "args": []},
                                                                                      {"k": "call", "fn": "H", "form": "plain", "args": [{"local": 0}]}]}],
+                "entries": {"eval_root": {"kind": "eval", "fn": "root"}}})
+    # a function is kept and, right after, also called plainly in the same body (the plain call reaches the keep inside it)
+    out.append({"id": "G/keep_then_plain_call", "key": "keep_then_plain_call", "modules": ["main"], "vars": [], "eps": [],
+                "funcs": [{"name": "C", "module": "main", "params": [], "body": []},
+                          {"name": "A", "module": "main", "params": [], "body": [{"k": "keep", "path": "/k/c", "fn": "C", "args": []}]},
+                          df("GG", "/k/g", [{"k": "keep", "path": "/k/a", "fn": "A", "args": []}, c("A")]),
+                          {"name": "root", "module": "main", "params": [], "body": [c("GG")]}],
                 "entries": {"eval_root": {"kind": "eval", "fn": "root"}}})
     # paths with characters that mean something in the dot language (a colon separates a node from a port)
     f2 = {"name": "F2", "module": "main", "params": [], "body": [{"k": "keep", "path": "/t/x:a", "fn": "F", "args": []}]}
